@@ -67,7 +67,7 @@ Definition server_security_data : msg :=
 
 Definition server_network_data : msg :=
   MComp [
-    ("MCSChannelId", MCheck (u16le 1003));
+    ("MCSChannelId", u16le 0);
     ("channelCount", MDyn (u16le 0) (CloSize "channelIdArray" (XMul XSelf 2)));
     ("channelIdArray", MArray [] (Some (u16le 0)))
   ].
@@ -93,7 +93,7 @@ Definition ST_NO_TRANSITION : N := 2.
 Definition preamble : msg :=
   MComp [
     ("bMsgtype", MU8 0);
-    ("flag", MCheck (MU8 3));
+    ("flag", MU8 0);
     ("wMsgSize", MDyn (u16le 0) (size_minus "message" 4));
     ("message", MBytes [])
   ].
